@@ -30,43 +30,28 @@ Proof.
   - rewrite zrange_cons by lia. cbn. rewrite Z.eqb_refl. cbn. apply IH. lia.
 Qed.
 
-Lemma consecutive_app a l1 l2 :
-  consecutive_from a (l1 ++ l2) = consecutive_from a l1 && consecutive_from (last l1 a) l2.
-Proof.
-  revert a. induction l1 as [|x t IH]; intros a; cbn [app consecutive_from last]; [reflexivity|].
-  rewrite IH. destruct t; cbn; rewrite ?andb_assoc; reflexivity.
-Qed.
-
 (* ---------- the retry loop ---------- *)
-Lemma retry_spec : forall n c L reads acc,
-  exists L', L <= L' /\ retry n c L reads acc = (acc ++ zrange (L + 1) L', L', negb (L' + 1 <=? c) || false)
-             \/ (L <= L' /\ retry n c L reads acc = (acc ++ zrange (L + 1) L', L', false)).
+Lemma retry_spec : forall n c L reads acc d L' ok,
+  retry n c L reads acc = (d, L', ok) ->
+  L <= L' /\ d = acc ++ zrange (L + 1) L' /\ (ok = true -> c <= L').
 Proof.
-  induction n as [|n IH]; intros c L reads acc.
-  - exists L. right. split; [lia|]. cbn. rewrite zrange_empty by lia. rewrite app_nil_r. reflexivity.
-  - cbn [retry]. destruct (L + 1 <=? c) eqn:E.
-    + unfold read_since. set (L1 := Z.max L (match reads with r :: _ => r | [] => L end)).
-      destruct (IH c L1 (tl reads) (acc ++ zrange (L + 1) L1)) as [L' [[H1 H2]|[H1 H2]]].
-      * exists L'. left. split; [lia|]. rewrite H2, <- app_assoc, zrange_app by lia. reflexivity.
-      * exists L'. right. split; [lia|]. rewrite H2, <- app_assoc, zrange_app by lia. reflexivity.
-    + exists L. left. split; [lia|]. rewrite zrange_empty by lia. rewrite app_nil_r, E. reflexivity.
+  induction n as [|n IH]; intros c L reads acc d L' ok H; cbn [retry] in H.
+  - injection H as <- <- <-. split; [lia|]. split; [rewrite zrange_empty by lia; rewrite app_nil_r; reflexivity|discriminate].
+  - destruct (L + 1 <=? c) eqn:E.
+    + unfold read_since in H. set (L1 := Z.max L (match reads with r :: _ => r | [] => L end)) in *.
+      apply IH in H as [H1 [H2 H3]]. split; [lia|]. split; [|exact H3].
+      rewrite H2, <- app_assoc, zrange_app by lia. reflexivity.
+    + injection H as <- <- <-. apply Z.leb_gt in E. split; [lia|].
+      split; [rewrite zrange_empty by lia; rewrite app_nil_r; reflexivity|intros _; lia].
 Qed.
 
 Lemma retry_ok n c L reads acc d L' : retry n c L reads acc = (d, L', true) ->
   L <= L' /\ c <= L' /\ d = acc ++ zrange (L + 1) L'.
-Proof.
-  intros H. destruct (retry_spec n c L reads acc) as [L1 [[H1 H2]|[H1 H2]]]; rewrite H2 in H.
-  - injection H as <- <- Hb. rewrite orb_false_r in Hb. apply negb_true_iff in Hb. apply Z.leb_gt in Hb.
-    repeat split; [lia|lia|reflexivity].
-  - discriminate.
-Qed.
+Proof. intros H. apply retry_spec in H as [H1 [H2 H3]]. auto. Qed.
 
 Lemma retry_any n c L reads acc d L' ok : retry n c L reads acc = (d, L', ok) ->
   L <= L' /\ d = acc ++ zrange (L + 1) L'.
-Proof.
-  intros H. destruct (retry_spec n c L reads acc) as [L1 [[H1 H2]|[H1 H2]]]; rewrite H2 in H;
-    injection H as <- <- _; split; [lia|reflexivity|lia|reflexivity].
-Qed.
+Proof. intros H. apply retry_spec in H as [H1 [H2 _]]. auto. Qed.
 
 (* ---------- forwarding with the id filter ---------- *)
 Lemma fwd_acc l : forall acc L,
@@ -98,8 +83,9 @@ Proof.
 Qed.
 
 (* ---------- well-formed observations of the producer ---------- *)
-Definition stream_of (i : cin) : list Z :=
-  (match ci_peek i with Some c => [c] | None => [] end) ++ ci_qrest i ++ ci_live i.
+Definition peek_list (p : option Z) : list Z := match p with Some c => [c] | None => [] end.
+
+Definition stream_of (i : cin) : list Z := peek_list (ci_peek i) ++ ci_qrest i ++ ci_live i.
 
 Record cin_wf (i : cin) : Prop := {
   wf_from : ci_from i <= ci_first i;
@@ -109,92 +95,88 @@ Record cin_wf (i : cin) : Prop := {
                  the watch value read at the peek *)
               (ci_peek i = None -> s <= ci_watch i) }.
 
+(* pending event, buffered events and live events go through one and the same filter *)
+Lemma tail_spec L p qrest live :
+  let st0 := match p with Some c => fwd_filtered ([], L) c | None => ([], L) end in
+  let st1 := fold_left fwd_filtered qrest st0 in
+  fst st1 ++ fst (fold_left fwd_filtered live ([], snd st1)) =
+  fst (fold_left fwd_filtered (peek_list p ++ qrest ++ live) ([], L)).
+Proof.
+  cbv zeta.
+  assert (G : forall st0, fst (fold_left fwd_filtered qrest st0) ++
+                          fst (fold_left fwd_filtered live ([], snd (fold_left fwd_filtered qrest st0))) =
+                          fst (fold_left fwd_filtered (qrest ++ live) st0)).
+  { intros st0. rewrite fold_left_app. destruct (fold_left fwd_filtered qrest st0) as [a l]. cbn [fst snd].
+    rewrite (fwd_acc live a l). reflexivity. }
+  destruct p as [c|]; cbn [peek_list app fold_left]; apply G.
+Qed.
+
+Lemma catch_up_ok_shape attempts i d1 L :
+  (match (match ci_peek i with Some c => Some c | None => if ci_watch i <=? ci_first i then None else Some (ci_watch i) end) with
+   | Some c => retry attempts c (ci_first i) (ci_reads i) []
+   | None => ([], ci_first i, true) end) = (d1, L, true) ->
+  catch_up attempts true i =
+  (zrange (ci_from i + 1) (ci_first i) ++ d1 ++
+   fst (fold_left fwd_filtered (stream_of i) ([], L)), false).
+Proof.
+  intros H. unfold catch_up. rewrite H. cbn [negb]. unfold stream_of.
+  rewrite <- (tail_spec L (ci_peek i) (ci_qrest i) (ci_live i)). cbv zeta. reflexivity.
+Qed.
+
 Theorem catch_up_consecutive attempts i d stopped :
   cin_wf i -> catch_up attempts true i = (d, stopped) -> consecutive_from (ci_from i) d = true.
 Proof.
-  intros [Hfrom [s [Hcons Hwatch]]]. unfold catch_up.
+  intros [Hfrom [s [Hcons Hwatch]]] Hrun.
   set (d0 := zrange (ci_from i + 1) (ci_first i)).
   assert (Hd0 : forall L, ci_first i <= L -> d0 ++ zrange (ci_first i + 1) L = zrange (ci_from i + 1) L)
     by (intros L HL; unfold d0; apply zrange_app; lia).
-  destruct (ci_peek i) as [c|] eqn:Epeek.
-  - (* a buffered live event was found *)
-    destruct (retry attempts c (ci_first i) (ci_reads i) []) as [[d1 L] ok] eqn:Er.
-    destruct ok; cbn [negb].
-    + apply retry_ok in Er as [HL [HcL ->]]. cbn [app].
-      intros H. injection H as <- _.
-      unfold stream_of in Hcons. rewrite Epeek in Hcons. cbn [app] in Hcons.
-      (* the whole stream goes through the filter from L *)
-      assert (Hall : fold_left fwd_filtered (ci_live i) ([], snd (fold_left fwd_filtered (ci_qrest i) (fwd_filtered ([], L) c))) = 
-                     fold_left fwd_filtered (ci_live i) ([], snd (fold_left fwd_filtered (c :: ci_qrest i) ([], L)))) by reflexivity.
-      set (st1 := fold_left fwd_filtered (ci_qrest i) (fwd_filtered ([], L) c)).
-      assert (Hst1 : st1 = fold_left fwd_filtered (c :: ci_qrest i) ([], L)) by reflexivity.
-      assert (Hfold : fst st1 ++ fst (fold_left fwd_filtered (ci_live i) ([], snd st1)) =
-                      fst (fold_left fwd_filtered ((c :: ci_qrest i) ++ ci_live i) ([], L))).
-      { rewrite fold_left_app, <- Hst1. destruct st1 as [a l]. cbn [fst snd]. rewrite (fwd_acc (ci_live i) a l). reflexivity. }
-      rewrite Hfold.
-      assert (Hs : s <= L).
-      { cbn [consecutive_from] in Hcons. apply andb_true_iff in Hcons as [Hx _]. apply Z.eqb_eq in Hx. lia. }
-      rewrite (fwd_consecutive _ s L Hcons Hs). cbn [fst].
-      rewrite app_assoc, Hd0 by lia. rewrite zrange_app by lia. apply consecutive_zrange.
-    + apply retry_any in Er as [HL ->]. cbn [app]. intros H. injection H as <- _.
-      rewrite Hd0 by lia. apply consecutive_zrange.
-  - (* nothing buffered: the watch decides *)
-    specialize (Hwatch eq_refl).
-    unfold stream_of in Hcons. rewrite Epeek in Hcons. cbn [app] in Hcons.
-    assert (Hgen : forall d1 L, ci_first i <= L -> s <= L -> d1 = zrange (ci_first i + 1) L ->
-              consecutive_from (ci_from i)
-                (d0 ++ d1 ++ fst (fold_left fwd_filtered (ci_qrest i) ([], L)) ++
-                 fst (fold_left fwd_filtered (ci_live i) ([], snd (fold_left fwd_filtered (ci_qrest i) ([], L))))) = true).
-    { intros d1 L HL Hs ->.
-      assert (Hfold : fst (fold_left fwd_filtered (ci_qrest i) ([], L)) ++
-                      fst (fold_left fwd_filtered (ci_live i) ([], snd (fold_left fwd_filtered (ci_qrest i) ([], L)))) =
-                      fst (fold_left fwd_filtered (ci_qrest i ++ ci_live i) ([], L))).
-      { rewrite fold_left_app. destruct (fold_left fwd_filtered (ci_qrest i) ([], L)) as [a l]. cbn [fst snd].
-        rewrite (fwd_acc (ci_live i) a l). reflexivity. }
-      rewrite Hfold, (fwd_consecutive _ s L Hcons Hs). cbn [fst].
-      rewrite app_assoc, Hd0 by lia. rewrite zrange_app by lia. apply consecutive_zrange. }
-    destruct (ci_watch i <=? ci_first i) eqn:Ew.
-    + apply Z.leb_le in Ew. cbn [negb]. intros H. injection H as <- _.
-      apply Hgen; [lia|lia|]. rewrite zrange_empty by lia. reflexivity.
-    + apply Z.leb_gt in Ew.
-      destruct (retry attempts (ci_watch i) (ci_first i) (ci_reads i) []) as [[d1 L] ok] eqn:Er.
-      destruct ok; cbn [negb].
-      * apply retry_ok in Er as [HL [HcL ->]]. cbn [app]. intros H. injection H as <- _.
-        apply Hgen; [lia|lia|reflexivity].
-      * apply retry_any in Er as [HL ->]. cbn [app]. intros H. injection H as <- _.
-        rewrite Hd0 by lia. apply consecutive_zrange.
+  set (check := match ci_peek i with Some c => Some c | None => if ci_watch i <=? ci_first i then None else Some (ci_watch i) end).
+  destruct (match check with Some c => retry attempts c (ci_first i) (ci_reads i) [] | None => ([], ci_first i, true) end)
+    as [[d1 L] ok] eqn:Er.
+  (* what the reads delivered, and where the stream of live events starts *)
+  assert (Hread : ci_first i <= L /\ d1 = zrange (ci_first i + 1) L /\ (ok = true -> s <= L)).
+  { unfold check in Er. destruct (ci_peek i) as [c|] eqn:Epeek.
+    - apply retry_spec in Er as [H1 [H2 H3]]. cbn [app] in H2. split; [lia|]. split; [exact H2|].
+      intros Hok. specialize (H3 Hok). unfold stream_of in Hcons. rewrite Epeek in Hcons. cbn [peek_list app consecutive_from] in Hcons.
+      apply andb_true_iff in Hcons as [Hx _]. apply Z.eqb_eq in Hx. lia.
+    - specialize (Hwatch eq_refl). destruct (ci_watch i <=? ci_first i) eqn:Ew.
+      + injection Er as <- <- <-. apply Z.leb_le in Ew. split; [lia|]. split; [rewrite zrange_empty by lia; reflexivity|intros _; lia].
+      + apply retry_spec in Er as [H1 [H2 H3]]. cbn [app] in H2. split; [lia|]. split; [exact H2|]. intros Hok. specialize (H3 Hok). lia. }
+  destruct Hread as [HL [Hd1 Hs]]. subst d1.
+  destruct ok.
+  - rewrite (catch_up_ok_shape attempts i _ L Er) in Hrun. injection Hrun as <- _.
+    rewrite (fwd_consecutive _ s L Hcons (Hs eq_refl)). cbn [fst].
+    fold d0. rewrite app_assoc, Hd0 by lia. rewrite zrange_app by lia. apply consecutive_zrange.
+  - unfold catch_up in Hrun. fold check in Hrun. rewrite Er in Hrun. cbn [negb] in Hrun. injection Hrun as <- _.
+    fold d0. rewrite Hd0 by lia. apply consecutive_zrange.
 Qed.
 
 (* ---------- the client ---------- *)
-(* every change the client accepts continues the previous one; anything else is reported *)
-Theorem client_accepts_consecutive : forall es last,
-  let outs := client_run last es in
-  forall l1 a b l2, outs = l1 ++ CAccept a :: CAccept b :: l2 -> b = a + 1.
+Definition accepted (outs : list cout) : list Z :=
+  flat_map (fun o => match o with CAccept id => [id] | CMissed _ _ => [] end) outs.
+
+(* whatever arrives after the end-of-query, the changes the client accepts are start+1,
+   start+2, ... without gap or repetition *)
+Theorem client_accepts_consecutive : forall ids start,
+  consecutive_from start (accepted (client_run (Some start) (map CChange ids))) = true.
 Proof.
-  induction es as [|e t IH]; intros last outs l1 a b l2 H; subst outs; cbn [client_run] in H.
-  - destruct l1; discriminate.
-  - destruct e as [id|id]; cbn [client_step] in H.
-    + cbn [app] in H. exact (IH _ _ _ _ _ H).
-    + destruct last as [l|].
-      * destruct (l + 1 =? id) eqn:E.
-        -- cbn [app] in H. destruct l1 as [|x l1].
-           ++ cbn [app] in H. injection H as <- H.
-              (* the next output comes from state Some id *)
-              destruct t as [|e2 t2]; [discriminate|]. cbn [client_run] in H.
-              clear IH. revert H. generalize dependent e2. 
-              assert (G : forall es b l2, client_run (Some id) es = CAccept b :: l2 -> b = id + 1).
-              { induction es as [|e3 t3 IH3]; intros b0 l0 H0; cbn [client_run] in H0; [discriminate|].
-                destruct e3 as [id3|id3]; cbn [client_step] in H0.
-                - cbn [app] in H0.
-                  destruct id3 as [j|].
-                  + (* an end-of-query resets the expectation: the next accepted id follows it, not id *)
-                    exfalso. revert H0. generalize (client_run (Some j) t3). intros; admit_marker.
-                  + admit_marker.
-                - destruct (id + 1 =? id3) eqn:E3; cbn [app] in H0; [injection H0 as <- _; apply Z.eqb_eq in E3; lia|discriminate]. }
-              intros e2 H. exact (G _ _ _ H).
-           ++ cbn [app] in H. injection H as _ H. exact (IH _ _ _ _ _ H).
-        -- cbn [app] in H. destruct l1 as [|x l1]; [discriminate|]. cbn [app] in H. injection H as _ H. exact (IH _ _ _ _ _ H).
-      * cbn [app] in H. destruct l1 as [|x l1].
-        -- cbn [app] in H. injection H as <- H. destruct t; [discriminate|]. admit_marker.
-        -- cbn [app] in H. injection H as _ H. exact (IH _ _ _ _ _ H).
+  induction ids as [|x t IH]; intros start; cbn [map client_run client_step]; [reflexivity|].
+  destruct (start + 1 =? x) eqn:E.
+  - cbn [app accepted flat_map]. cbn [consecutive_from]. apply Z.eqb_eq in E. subst x. rewrite Z.eqb_refl. cbn [andb].
+    apply IH.
+  - cbn [app accepted flat_map]. apply IH.
+Qed.
+
+(* ... and every other change is reported, none is dropped silently *)
+Theorem client_reports_every_gap : forall ids start,
+  length (client_run (Some start) (map CChange ids)) = length ids /\
+  (consecutive_from start ids = true <-> client_run (Some start) (map CChange ids) = map CAccept ids).
+Proof.
+  induction ids as [|x t IH]; intros start; cbn [map client_run client_step length consecutive_from].
+  - split; [reflexivity|split; reflexivity].
+  - destruct (start + 1 =? x) eqn:E.
+    + destruct (IH x) as [H1 H2]. cbn [app length]. split; [f_equal; exact H1|].
+      rewrite Z.eqb_sym in E. rewrite E. cbn [andb]. rewrite H2. split; [intros ->; reflexivity|intros H; injection H as H; exact H].
+    + destruct (IH start) as [H1 _]. cbn [app length]. split; [f_equal; exact H1|].
+      rewrite Z.eqb_sym in E. rewrite E. cbn [andb]. split; [discriminate|intros H; discriminate].
 Qed.
